@@ -8,7 +8,8 @@
      outside the task (task parked in `await event.wait()` at level 0):
         task.coro (suspended)        -> greenback_shim, _greenback_shim            [no next frame]
         portal child greenlet        -> trampoline [, send, target, (a k, s k, await_ k, send)*, a 1, s 1, await_ 1]
-        innermost await_ / trampoline have no next frame; their coro is suspended: a 0, wait, wait_task_rescheduled
+        innermost await_ / trampoline have no next frame; their coro is suspended: a 0, wait [, wait_task_rescheduled]
+        (a coroutine last resumed by throw() is driven through outcome.Error.send instead of Value.send)
      inside the task (extract called j greenlets below the task's sync code):
         task.coro (running) = StackSlice(outer=its frame): greenback_shim, _greenback_shim, trampoline,
         send, target, (a k, s k, await_ k, send)*, a 0, leaf, nested^(j+1), probe   (see C04 for the slice)
@@ -19,6 +20,7 @@ Require Import Base.
 Inductive fk :=
   | FShimCoro                      (* greenback_shim: the coroutine the task runs *)
   | FShim | FTramp | FSend         (* _greenback_shim, trampoline, outcome.Value.send *)
+  | FSendE                         (* outcome.Error.send: the coroutine below was last resumed by throw() *)
   | FTarget                        (* the task's async function *)
   | FA (k : nat) | FS (k : nat)    (* async / sync user function of alternation level k *)
   | FAwait (k : nat)               (* greenback.await_ of level k *)
@@ -28,7 +30,10 @@ Inductive fk :=
 
 Inductive obj := OTask | OChild | OOrigCoro | OCoro (k : nat).
 
-Record scenario := { sc_inside : bool; sc_n : nat; sc_j : nat }.
+(* sc_err = Some m: the coroutine of level m was last resumed with an exception (asyncio delivers
+   cancellation / timeouts by coro.throw()), handled it and went on; sc_aio: hosted by asyncio
+   (the parked leaf ends in Event.wait; under trio in wait_task_rescheduled) *)
+Record scenario := { sc_inside : bool; sc_n : nat; sc_j : nat; sc_err : option nat; sc_aio : bool }.
 
 Inductive hres := HNone | HObj (o : obj) | HRaise.
 
@@ -70,35 +75,45 @@ Definition elab (sc : scenario) (k : fk) (next : option fk) : hres :=
 (* hide flag after the hooks ran: the greenback hooks set frame.hide; outcome's send and trio's
    trap are hidden by customize() *)
 Definition hidden (k : fk) : bool :=
-  match k with FShim | FTramp | FAwait _ | FSend | FWTR | FSwitch => true | _ => false end.
+  match k with FShim | FTramp | FAwait _ | FSend | FSendE | FWTR | FSwitch => true | _ => false end.
 
 (* ---- recorded shapes *)
 Definition seg (k : nat) : list fk := [FA k; FS k; FAwait k].
 
+(* the outcome.*.send frame through which the coroutine of level m is being driven *)
+Definition drv (err : option nat) (m : nat) : fk :=
+  if option_eqb Nat.eqb err (Some m) then FSendE else FSend.
+
 (* levels n .. 1, each followed by the send that drives the next coroutine *)
-Fixpoint up (n : nat) : list fk :=
-  match n with 0 => [] | S m => seg (S m) ++ FSend :: up m end.
+Fixpoint up (err : option nat) (n : nat) : list fk :=
+  match n with 0 => [] | S m => seg (S m) ++ drv err m :: up err m end.
 
 (* the same, the innermost await_ parked in greenlet.switch (a C function: no frame) *)
-Fixpoint out (n : nat) : list fk :=
+Fixpoint out (err : option nat) (n : nat) : list fk :=
   match n with
   | 0 => []
-  | S m => match m with 0 => seg 1 | S _ => seg (S m) ++ FSend :: out m end
+  | S m => match m with 0 => seg 1 | S _ => seg (S m) ++ drv err m :: out err m end
   end.
 
+Definition park (sc : scenario) : list fk := if sc_aio sc then [FA 0; FWait] else [FA 0; FWait; FWTR].
+
 Definition unwrap (sc : scenario) (o : obj) : list fk :=
+  let err := sc_err sc in
   if sc_inside sc then
     match o with
-    | OTask => [FShimCoro; FShim; FTramp; FSend; FTarget] ++ up (sc_n sc) ++ [FA 0; FLeaf]
+    | OTask => [FShimCoro; FShim; FTramp; drv err (sc_n sc); FTarget] ++ up err (sc_n sc) ++ [FA 0; FLeaf]
                ++ repeat FNested (S (sc_j sc)) ++ [FProbe]
     | _ => []                                        (* never asked for in the recorded runs *)
     end
   else
     match o with
     | OTask => [FShimCoro; FShim]
-    | OChild => FTramp :: match sc_n sc with 0 => [] | S _ => FSend :: FTarget :: out (sc_n sc) end
-    | OOrigCoro => [FTarget; FA 0; FWait; FWTR]
-    | OCoro 0 => [FA 0; FWait; FWTR]
+    | OChild => FTramp :: match sc_n sc with
+                          | 0 => []
+                          | S _ => drv err (sc_n sc) :: FTarget :: out err (sc_n sc)
+                          end
+    | OOrigCoro => FTarget :: park sc
+    | OCoro 0 => park sc
     | OCoro _ => []
     end.
 
@@ -134,7 +149,7 @@ Definition gb_extract (sc : scenario) : gres := run 8 sc OTask [].
 (* ---- generated cases: scenario + observed (kind, hide) list, error flag *)
 Definition fk_eqb (a b : fk) : bool :=
   match a, b with
-  | FShimCoro, FShimCoro | FShim, FShim | FTramp, FTramp | FSend, FSend | FTarget, FTarget
+  | FShimCoro, FShimCoro | FShim, FShim | FTramp, FTramp | FSend, FSend | FSendE, FSendE | FTarget, FTarget
   | FLeaf, FLeaf | FNested, FNested | FProbe, FProbe | FWait, FWait | FWTR, FWTR | FSwitch, FSwitch => true
   | FA x, FA y | FS x, FS y | FAwait x, FAwait y => x =? y
   | _, _ => false
